@@ -623,7 +623,37 @@ namespace
         track_log                   tl;
         std::shared_ptr<vary_state> vary = std::make_shared<vary_state>();
         std::mutex                  mtx;
+        std::vector<std::shared_ptr<void>> keep; // moved-from compositions / holders; destroyed before the members above
     };
+
+    // With nothing live, a second composition of the same type is built, some memory is taken from it, and it is move-assigned onto
+    // the composition under test: what it handed out must be released correctly through the assigned-to object.
+    template <class Ptr, class Make>
+    auto move_assign_top(Ptr& top, fwd_env& env, rng& r, Make& make, shadow& sh, const std::string& kind, std::size_t max_size, std::size_t max_align)
+        -> decltype(*top = std::move(*top), void())
+    {
+        using Top = typename std::decay<decltype(*top)>::type;
+        using tr  = allocator_traits<Top>;
+        auto other = make(env, r);
+        op("move-assign the composition from a second one that has handed out memory");
+        auto owns = [&](const char* p, std::size_t) { return env.lv.holder(p) != nullptr; };
+        for (int i = 0, n = int(r.range(1, 4)); i < n; ++i)
+        {
+            std::size_t size  = std::min<std::size_t>(r.range(1, 200), max_size);
+            std::size_t align = std::size_t(1) << r.below(5);
+            while (align > max_align)
+                align >>= 1;
+            void* p = tr::allocate_node(*other, size, align);
+            sh.add(owns, p, false, 1, size, align);
+        }
+        *top = std::move(*other);
+        env.keep.push_back(std::shared_ptr<void>(std::move(other))); // holders (referenced allocators) must outlive the assigned-to object
+        env.lv.check();
+        flag("move");
+        vf::count("composition_move_assignments");
+        (void)kind;
+    }
+    inline void move_assign_top(...) {}
 
     // Top is driven through allocator_traits; exactly one leaf call per top-level call, release mirrors the leaf allocation
     template <class Top, class Make>
@@ -650,6 +680,8 @@ namespace
                             env.vary->max_node = r.chance(50) ? r.range(50, 400) : r.range(400, 3000);
                             op("leaf max_node_size := %zu", env.vary->max_node);
                         }
+                        if (sh.live.empty() && r.chance(15))
+                            move_assign_top(top, env, r, make, sh, kind, max_size, max_align);
                         if (r.chance(55) || sh.live.empty())
                         {
                             bool        arr = r.chance(35);
